@@ -1091,4 +1091,63 @@ def decodeStream (cfg : DecCfg) : Nat → DecSt → Bytes → List Val → Strea
     | .otherPanic => .nilNoErr acc.length
     | .outOfFuel => .outOfFuel
 
+/-! ## A Decoder used again after a call that failed
+
+Nothing in `Decode` resets the Decoder when a call fails: the next call goes on reading where the failed one stopped,
+with the stack as the failing op left it (`d.pop()` happens before the check that fails). An op that fails on the end
+of the input has consumed all of it (`io.ReadFull` / `io.CopyN` read what there is), so every later call fails at once. -/
+
+/-- the decoder state after `op` failed in state `ds`: what it had popped before the failing check stays popped -/
+def failState (ds : DecSt) : Op → DecSt
+  | .append =>                                   -- `v := d.pop()` then `d.peek()` / the type test fails
+    match ds.stack with
+    | _ :: rest => { ds with stack := rest }
+    | [] => ds
+  | .tuple2 =>                                   -- `b, a := d.pop(), d.pop()`
+    match ds.stack with
+    | [_] => { ds with stack := [] }
+    | _ => ds
+  | .tuple3 =>
+    match ds.stack with
+    | [_] => { ds with stack := [] }
+    | [_, _] => { ds with stack := [] }
+    | _ => ds
+  | .stackGlobal =>                              -- name popped, tested; module popped, tested
+    match ds.stack with
+    | .atom (.str _) :: _ :: rest => { ds with stack := rest }
+    | [.atom (.str _)] => { ds with stack := [] }
+    | _ :: rest => { ds with stack := rest }
+    | [] => ds
+  | .newobj =>                                   -- args popped, tested; global popped, tested; then the unpickler
+    match ds.stack with
+    | .ref a :: rest =>
+      match ds.heap[a]? with
+      | some (.tuple _) => { ds with stack := rest.tail }
+      | _ => { ds with stack := rest }
+    | _ :: rest => { ds with stack := rest }
+    | [] => ds
+  | _ => ds                                      -- every other op checks before it changes anything
+
+/-- one `Decode` call: its outcome, the Decoder afterwards, the unread input -/
+def decodeCall (cfg : DecCfg) : Nat → DecSt → Bytes → Outcome × DecSt × Bytes
+  | 0, ds, bs => (.outOfFuel, ds, bs)
+  | fuel + 1, ds, bs =>
+    match parseOp bs with
+    | .eof => (.err .eof, ds, [])
+    | .bad _ => (.err .badOpcode, ds, bs.tail)
+    | .op o rest =>
+      match stepOp cfg ds o with
+      | .cont ds' => decodeCall cfg fuel ds' rest
+      | .done v ds' => (.ok ds'.heap v, ds', rest)
+      | .fail k => (.err k, failState ds o, rest)
+      | .rtPanic => (if cfg.failureIsInterface then .err .runtimeError else .nilNoErr, failState ds o, rest)
+      | .otherPanic => (.nilNoErr, failState ds o, rest)
+
+/-- `n` calls of `Decode` on one Decoder, whatever each of them answers -/
+def decodeCalls (cfg : DecCfg) : Nat → DecSt → Bytes → List Outcome
+  | 0, _, _ => []
+  | n + 1, ds, bs =>
+    match decodeCall cfg (bs.length + 1) ds bs with
+    | (o, ds', rest) => o :: decodeCalls cfg n ds' rest
+
 end Dawn.Pickle
